@@ -76,6 +76,51 @@ def call_two(name, x_of, y_of):
 MANUAL_TWO = ["where[cond]", "clip[max]", "map_blocks", "apply_gufunc", "linalg.outer", "Array.__add__", "Array.__matmul__", "compute[plan]", "store", "arrays_to_plan"]
 
 
+# entry points called with a NON-cubed operand (numpy array / Python scalar) next to a cubed array: the coercion of the foreign
+# operand has to use the cubed operand's spec wherever that operand stands (C19: helper arrays receive the operands' spec)
+def _np(n=2):
+    import numpy as np
+
+    return np.ones(n)
+
+
+MIXED = {
+    "map_blocks[numpy,cubed]": lambda x: __import__("cubed").map_blocks(lambda a, b: a + b, _np(), x, dtype="float64"),
+    "map_blocks[cubed,numpy]": lambda x: __import__("cubed").map_blocks(lambda a, b: a + b, x, _np(), dtype="float64"),
+    "map_blocks[scalar,cubed]": lambda x: __import__("cubed").map_blocks(lambda a, b: a + b, 1.0, x, dtype="float64"),
+    "map_blocks[numpy,cubed,block_id]": lambda x: __import__("cubed").map_blocks(lambda a, b, block_id=None: a + b, _np(), x, dtype="float64"),
+    "map_blocks[scalar,numpy,cubed]": lambda x: __import__("cubed").map_blocks(lambda a, b, c: a + b + c, 2.0, _np(), x, dtype="float64"),
+    "apply_gufunc[numpy,cubed]": lambda x: __import__("cubed").apply_gufunc(lambda a, b: a + b, "(),()->()", _np(4), x.rechunk((4,)), output_dtypes="float64"),
+    "where[cond,cubed,scalar]": lambda x: __import__("cubed.array_api", fromlist=["where"]).where(x > 0, x, 0.0),
+    "where[cond,scalar,cubed]": lambda x: __import__("cubed.array_api", fromlist=["where"]).where(x > 0, 1.0, x),
+    "maximum[cubed,scalar]": lambda x: __import__("cubed.array_api", fromlist=["maximum"]).maximum(x, 1.0),
+    "maximum[scalar,cubed]": lambda x: __import__("cubed.array_api", fromlist=["maximum"]).maximum(1.0, x),
+    "clip[cubed,scalar,cubed]": lambda x: __import__("cubed.array_api", fromlist=["clip"]).clip(x, 0.0, x),
+    "Array.__radd__[scalar]": lambda x: 1.0 + x,
+    "Array.__rpow__[scalar]": lambda x: 2.0 ** x,
+    "Array.__gt__[scalar]": lambda x: x > 0,
+}
+
+
+def call_mixed(name, x):
+    return MIXED[name](x)
+
+
+def discover_mixed_entry_points():
+    G.install()
+    spec = config_spec()
+    names = []
+    for n in MIXED:
+        G.reset_names()
+        try:
+            r = call_mixed(n, _arr("x", spec))
+        except Exception:  # noqa: BLE001
+            continue
+        if r is not None:
+            names.append(n)
+    return names
+
+
 def config_spec():
     """the Spec object cubed builds (and caches) from the global configuration: what arrays get when no spec is passed"""
     from cubed import config
